@@ -34,6 +34,7 @@ typedef std::vector<Node> NV;
 enum Dom { ANY, POS, UNIT, MID, POSM };  // nonzero / positive / |x| <= 1 / 1/2 <= |x| <= 3/2 / 1/2 <= x <= 2
 
 static Device *g_other = nullptr;  // a second device object of the other backend
+static bool g_cross_last = false;  // the node backward() is called on lives on the other device (a final functions::copy)
 
 // ---- `alloc` mode: devices whose new_handle counts, poisons and can be made to fail ----
 static long g_live = 0, g_allocs = 0, g_fail_at = -1;
@@ -448,6 +449,7 @@ static double eval_total(Device &dev, const Case &c, const std::vector<std::vect
       total = total + F::batch::sum(F::sum(F::flatten(extra), 0));
     }
   }
+  if (g_cross_last && g_other && !W.empty()) total = F::copy(total, *g_other);
   std::vector<float> v = total.to_vector();
   double s = 0;
   for (float e : v) s += e;
@@ -532,6 +534,7 @@ static std::string exec_alloc(const std::vector<std::string> &w) {
   else if (w[1] == "naive") { dev.reset(new INaive()); other.reset(new devices::Eigen()); }
   else throw BadOp();
   g_other = other.get();
+  g_cross_last = false;
   Device::set_default(*dev);
   Rng r(vh::to_u32(w[3]) * 2654435761u + 17);
   Case c = make_case(w[2], r);
@@ -582,6 +585,8 @@ static std::string exec(const std::vector<std::string> &w) {
   Device::set_default(*dev);
   Rng r(vh::to_u32(w[2]) * 2654435761u + 17);
   Case c = make_case(w[1], r);
+  // every third seed: the whole program runs on one device but backward() starts on the other one
+  g_cross_last = (vh::to_u32(w[2]) % 3 == 0);
   std::vector<std::vector<float>> theta;
   std::uint32_t total_elems = 0;
   std::vector<std::vector<float>> offs;
